@@ -119,12 +119,39 @@ func c28Sweep(g *Gen, upto int, every int) {
 			g.Emit("fin")
 			g.Emit("checkall %d", 1+n/40)
 		}
+		if n%16 == 1 || n%61 == 0 {
+			// headers / trees handed out earlier (in particular those finalised exactly at
+			// 1, 16, 256, 4096 leaves) must not be affected by the Adds since
+			g.Emit("held")
+		}
 	}
+	g.Emit("held")
 	g.Emit("vnew")
 	g.Emit("sync 0 %d", upto)
 	g.Emit("vprove %d 0", g.Intn(upto))
 	g.Emit("reopen")
 	g.Emit("hdr")
+	g.Emit("held")
+}
+
+// Finalize exactly at a power of 16, hold the header, keep adding past 16^(k+1)+16^k
+func c28HoldAcrossPowers(g *Gen, upto int) {
+	s := &c28GenSt{g: g}
+	for _, stop := range []int{1, 16, 17, 32, 256, 257, 272, 273, 288, 4096, 4097, 4352, 4353} {
+		if stop > upto {
+			break
+		}
+		s.addTo(stop)
+		g.Emit("fin")
+		if g.Intn(2) == 0 {
+			g.Emit("hdr")
+		}
+		g.Emit("held")
+	}
+	s.addTo(upto)
+	g.Emit("held")
+	g.Emit("fin")
+	g.Emit("held")
 }
 
 func c28Random(g *Gen, maxN int) {
@@ -224,7 +251,9 @@ func c28Random(g *Gen, maxN int) {
 		n = len(s.leaves)
 		g.Emit("hdr")
 		g.Emit("checkall %d", 1+n/30)
+		g.Emit("held")
 	}
+	g.Emit("held")
 }
 
 func c28Malformed(g *Gen) {
@@ -266,6 +295,12 @@ func c28Gen(g *Gen) {
 			}
 		case c == 2 && quick:
 			c28Random(g, 4500)
+		case c == 3:
+			if quick {
+				c28HoldAcrossPowers(g, 300)
+			} else {
+				c28HoldAcrossPowers(g, 4400)
+			}
 		case c%4 == 1:
 			c28AllRewinds(g, g.Pick(1, 2, 15, 16, 17, 33, 20+g.Intn(30)))
 		case c%9 == 8:
@@ -293,6 +328,21 @@ type c28Runner struct {
 	saved     [][]byte // leaves as of the last write to the accumulator bucket, when different
 	divergent bool
 	malformed bool
+	held      []*c28Held // headers returned earlier, kept alive across later operations
+}
+
+// a header as returned by Finalize/GetMerkleHeader: the live object, the bytes it had when it
+// was returned, what it must be (independent batch root of the leaves at that time), and for
+// Finalize results a prover tree built on the live object plus a few leaves to re-prove
+type c28Held struct {
+	hd      *hexary.MerkleHeader
+	copyOf  []byte
+	leaves  int64
+	want    []byte
+	final   bool
+	pt      hexary.MerkleTree
+	keys    []int64
+	samples [][]byte
 }
 
 func c28New() *c28Runner {
@@ -384,13 +434,67 @@ func c28AddRes(err error) string {
 	return "err"
 }
 
-func (r *c28Runner) header(hd *hexary.MerkleHeader, o *Oracle) string {
+func (r *c28Runner) header(hd *hexary.MerkleHeader, o *Oracle, final bool) string {
+	want := c28SpecRoot(r.leaves)
 	if !r.malformed {
-		want := c28SpecRoot(r.leaves)
 		o.Check(bytes.Equal(hd.RootHash, want) && hd.Leaves == int64(len(r.leaves)), "hexary-header-not-batch-root",
 			"header {%x,%d} but the batch root of the %d leaves is %x", hd.RootHash, hd.Leaves, len(r.leaves), want)
 	}
+	// keep the returned object alive (see the `held` op)
+	h := &c28Held{hd: hd, copyOf: append([]byte(nil), hd.RootHash...), leaves: hd.Leaves, want: want, final: final}
+	if final && !r.malformed && len(r.leaves) > 0 {
+		if pt, err := hexary.NewMerkleTree(r.tbk, hd, 0); err == nil {
+			h.pt = pt
+			n := int64(len(r.leaves))
+			for _, k := range []int64{0, n / 2, n - 1} {
+				h.keys = append(h.keys, k)
+				h.samples = append(h.samples, r.leaves[k])
+			}
+		}
+	}
+	r.held = append(r.held, h)
 	return fmt.Sprintf("hdr %s %d", hx(hd.RootHash), hd.Leaves)
+}
+
+// re-examine every header handed out earlier: headers are values, later operations on the
+// accumulator must not change them, and trees built on them must keep proving their prefix
+func (r *c28Runner) checkHeld(o *Oracle) string {
+	okc := 0
+	for _, h := range r.held {
+		good := bytes.Equal(h.hd.RootHash, h.copyOf) && h.hd.Leaves == h.leaves
+		if !r.malformed {
+			o.Check(good, "hexary-held-header-changed",
+				"a header returned earlier (%d leaves, final=%v) was {%x} when returned and is {%x} now",
+				h.leaves, h.final, h.copyOf, h.hd.RootHash)
+			o.Check(bytes.Equal(h.hd.RootHash, h.want), "hexary-held-header-changed",
+				"a header returned earlier for %d leaves is {%x}, the batch root of that prefix is {%x}",
+				h.leaves, h.hd.RootHash, h.want)
+		}
+		if good && h.pt != nil && !r.malformed {
+			for i, k := range h.keys {
+				p, err := h.pt.Prove(k, 0)
+				if err != nil {
+					o.Check(false, "hexary-held-header-changed", "tree on a held header (%d leaves): Prove(%d): %v", h.leaves, k, err)
+					good = false
+					continue
+				}
+				bk, _ := db.NewMapDB().GetBucket("v")
+				vt, err := hexary.NewMerkleTree(bk, h.hd, 0)
+				if err == nil {
+					err = vt.Add(k, h.samples[i], p)
+				}
+				if err != nil {
+					o.Check(false, "hexary-held-header-changed", "tree on a held header (%d leaves) rejects the proof of key %d: %v", h.leaves, k, err)
+					good = false
+				}
+			}
+		}
+		if good {
+			okc++
+		}
+	}
+	o.Count("held")
+	return fmt.Sprintf("held %d %d", len(r.held), okc)
 }
 
 func (r *c28Runner) proverTree() (hexary.MerkleTree, *hexary.MerkleHeader, error) {
@@ -438,14 +542,16 @@ func (r *c28Runner) Step(t []string, o *Oracle) (out string) {
 		return "ok"
 	case t[0] == "hdr" && len(t) == 1:
 		o.Count("hdr")
-		return r.header(r.acc.GetMerkleHeader(), o)
+		return r.header(r.acc.GetMerkleHeader(), o, false)
 	case t[0] == "fin" && len(t) == 1:
 		hd, err := r.acc.Finalize()
 		if err != nil {
 			return "err"
 		}
 		o.Count("fin")
-		return r.header(hd, o)
+		return r.header(hd, o, true)
+	case t[0] == "held" && len(t) == 1:
+		return r.checkHeld(o)
 	case t[0] == "len" && len(t) == 1:
 		o.Check(r.malformed || r.acc.Len() == int64(len(r.leaves)), "hexary-len", "Len()=%d after %d leaves", r.acc.Len(), len(r.leaves))
 		return fmt.Sprintf("len %d", r.acc.Len())
